@@ -69,6 +69,11 @@ func (Box) isOther() {}
 
 type Shapes []Shape
 
+// a member holding a named slice of its own union (lists inside list items)
+type Group struct{ Items Shapes }
+
+func (Group) isShape() {}
+
 type ShapeMap map[string]Shape
 
 type Inner struct {
@@ -168,7 +173,9 @@ func Check() {
 		v.V = Sphere{Radius: int(vfInt("v.radius", 0, 9))}
 		v.Last = vfBool("last")
 	case 2:
-		switch vfChoice("l", 3) {
+		switch vfChoice("l", 4) {
+		case 3: // a list whose first item holds a longer list
+			v.L = Shapes{Group{Items: Shapes{dot{X: 1}, dot{X: 2}, dot{X: int8(vfInt("l.deep", 0, 9))}}}, dot{X: 4}, Sphere{Radius: 5}, Group{Items: Shapes{dot{X: 6}}}}
 		case 1:
 			v.L = Shapes{}
 		case 2:
@@ -195,9 +202,12 @@ func Check() {
 		}
 	}
 
-	data, err := json.Marshal(v)
-	vfAssert(err == nil, "C02/marshalling-a-value-holding-member-values-succeeds")
-	if err != nil {
+	var data []byte
+	var err error
+	panicked, _, msg := vfCatch(func() { data, err = json.Marshal(v) })
+	vfObserve("marshal", msg)
+	vfAssert(!panicked && err == nil, "C02/marshalling-a-value-holding-member-values-succeeds")
+	if panicked || err != nil {
 		return
 	}
 	vfObserve("wire", string(data))
